@@ -74,9 +74,48 @@ func (constraint TypeConstraint) DeepCopy() TypeConstraint {
 		Args: make([]any, 0, len(constraint.Args)),
 	}
 
-	newConstraint.Args = append(newConstraint.Args, constraint.Args...)
+	for _, arg := range constraint.Args {
+		newConstraint.Args = append(newConstraint.Args, deepCopyValue(arg))
+	}
 
 	return newConstraint
+}
+
+// deepCopyValue copies the dynamic values held by the `any` fields of the IR
+// (defaults, constant values, constraint arguments, hints): slices and maps
+// are rebuilt recursively, IR values are deep-copied, anything else is a
+// scalar and is returned as-is.
+func deepCopyValue(value any) any {
+	switch v := value.(type) {
+	case []any:
+		if v == nil {
+			return v
+		}
+
+		newSlice := make([]any, len(v))
+		for i, item := range v {
+			newSlice[i] = deepCopyValue(item)
+		}
+
+		return newSlice
+	case map[string]any:
+		if v == nil {
+			return v
+		}
+
+		newMap := make(map[string]any, len(v))
+		for key, item := range v {
+			newMap[key] = deepCopyValue(item)
+		}
+
+		return newMap
+	case DisjunctionType:
+		return v.DeepCopy()
+	case Type:
+		return v.DeepCopy()
+	default:
+		return value
+	}
 }
 
 // JenniesHints meant to be used by jennies, to gain a finer control on the codegen from schemas
@@ -258,7 +297,7 @@ func (t Type) DeepCopy() Type {
 	newType := Type{
 		Kind:     t.Kind,
 		Nullable: t.Nullable,
-		Default:  t.Default,
+		Default:  deepCopyValue(t.Default),
 		Hints:    make(JenniesHints, len(t.Hints)),
 	}
 
@@ -304,7 +343,7 @@ func (t Type) DeepCopy() Type {
 	}
 
 	for k, v := range t.Hints {
-		newType.Hints[k] = v
+		newType.Hints[k] = deepCopyValue(v)
 	}
 
 	newType.PassesTrail = append(newType.PassesTrail, t.PassesTrail...)
@@ -810,7 +849,7 @@ func (t EnumValue) DeepCopy() EnumValue {
 	return EnumValue{
 		Type:  t.Type.DeepCopy(),
 		Name:  t.Name,
-		Value: t.Value,
+		Value: deepCopyValue(t.Value),
 	}
 }
 
@@ -955,7 +994,7 @@ func (t ConstantReferenceType) DeepCopy() ConstantReferenceType {
 	return ConstantReferenceType{
 		ReferredPkg:    t.ReferredPkg,
 		ReferredType:   t.ReferredType,
-		ReferenceValue: t.ReferenceValue,
+		ReferenceValue: deepCopyValue(t.ReferenceValue),
 	}
 }
 
@@ -1078,7 +1117,7 @@ func (scalarType *ScalarType) AcceptsValue(value any) bool {
 func (scalarType ScalarType) DeepCopy() ScalarType {
 	newT := ScalarType{
 		ScalarKind: scalarType.ScalarKind,
-		Value:      scalarType.Value,
+		Value:      deepCopyValue(scalarType.Value),
 	}
 
 	if len(scalarType.Constraints) != 0 {
